@@ -893,6 +893,11 @@ func (env *Zlisp) Run() (Sexp, error) {
 			fmt.Printf("\n ====== in '%s', now running the above.\n",
 				env.curfunc.name)
 		}
+		if verr := verifStep(env, instr); verr != nil {
+			env.restoreControlState(runState)
+			env.pc = functionSize(env.curfunc)
+			return SexpNull, verr
+		}
 		err := instr.Execute(env)
 		if err != nil {
 			env.restoreControlState(runState)
